@@ -59,6 +59,29 @@ def scenarios(rng, tier):
             elif r < 0.75: s.op('st_clear 0')
             else: s.op('adv', 61000)
             for i in range(rng.choice([1, 1, 2, 4])): s.op('adv', rng.choice([0, 20, 100])); s.op('tick 0')
+    own = bytes([2, 0, 0, 0, 0, 0x10])
+    for k, t0 in enumerate([2**32 - 10000, 2**32 - 1500, 2**32 - 300, 2**31 - 2000, 2**33 - 5000, 2**32 + 100] * (1 if tier == 'quick' else 20)):
+        s.start('wrap_%d' % k); s.op('mk 0'); s.op('adv', t0 + rng.randrange(200)); M = mac(1)
+        s.flow(0, discover(M, gen=1, seq=1, stations=[mac(9)]))
+        for i in range(60): s.op('adv', rng.choice([100, 100, 200, 50])); s.op('tick 0')
+    for k in range(12 if tier == 'quick' else 300):
+        # two sessions of different age; the older one expires alone; the table is cleared; a session that is complete from the
+        # start appears: nothing may be sent for it
+        s.start('ghost_%d' % k); s.op('mk 0'); s.op('adv', 1000 + rng.randrange(3000)); A, Bm, Cm = hx(mac(1)), hx(mac(2)), hx(mac(3))
+        s.op('st_add 0', A, 1, 1); s.op('ss_enum 0 3'); s.op('band_init 0'); s.op('band_choose 0')
+        for i in range(3): s.op('adv', 100); s.op('tick 0')
+        s.op('adv', rng.choice([5000, 15000, 30000])); s.op('st_add 0', Bm, 1, 1)
+        for i in range(rng.choice([3, 8])): s.op('adv', 100); s.op('tick 0')
+        s.op('adv', rng.choice([31000, 46000, 56000])); s.op('tick 0')
+        for i in range(3): s.op('adv', 100); s.op('tick 0')
+        s.op('st_clear 0'); s.op('tick 0'); s.op('adv', rng.choice([100, 2000]))
+        s.op('st_add 0', Cm, 5, 1); s.op('st_complete 0', Cm, 5, 1); s.op('ss_enum 0 3'); s.op('band_init 0'); s.op('band_choose 0')
+        for i in range(40): s.op('adv', 100); s.op('tick 0')
+    for k in range(10 if tier == 'quick' else 200):
+        s.start('emitidle_%d' % k); s.op('mk 0'); s.op('adv', 1000 + rng.randrange(3000)); M = mac(1)
+        s.flow(0, discover(M, gen=1, seq=1, stations=[mac(9)]))
+        s.op('adv', rng.choice([100, 1000, 3000])); s.flow(0, emit(M, own, [(1, 0, mac(7), mac(8))], seq=2))
+        for i in range(rng.choice([350, 400])): s.op('adv', 100); s.op('tick 0')    # more than 30 s of silence, ticks running
     return [(s.text(), {})]
 KEYS = ['map', 'ctc', 'chg', 'inact', 'sess', 'enum', 'ni', 'r', 'begun', 'hts', 'bts', 'ltx', 'cnt', 'allc', 'empty']
 def hellos(blk):
@@ -68,17 +91,59 @@ def project(blk, name, meta):
     ks = KEYS if blk.op.startswith(('tick', 'flow')) else [k for k in KEYS if k in blk.kv]
     return tuple((k, blk.kv.get(k)) for k in ks) + (hellos(blk),)
 def oracle(name, ib, mb, meta):
-    fails = []; last = {}
+    """pacing and origin from the trace; purpose and silence against an INDEPENDENT picture of the session table kept from the
+    operations alone (which sessions were opened, acknowledged, removed, expired after 60 s, dropped after 30 s without a frame)"""
+    fails = []; last = {}; now = 0
+    sess = {}          # (mapper, generation) -> [complete (True/False/None = left open), last activity in s]
+    touch = None       # second of the last frame (30 s inactivity deadline), None = not armed
+    own = bytes([2, 0, 0, 0, 0, 0x10])
+    def sweep(ns):
+        nonlocal touch
+        if touch is not None and ns >= touch + 30: sess.clear(); touch = None
+        for k in [k for k, v in sess.items() if ns > v[1] + 60]: del sess[k]
     for i, b in enumerate(ib):
+        if b.fault: break
+        t = b.op.split()
+        if 'now' in b.kv and t[0] == 'adv': now = int(b.kv['now'])
+        ns = now // 1000
+        if t[0] == 'mk': sess.clear(); touch = None
+        elif t[0] == 'st_add' and t[1] == '0':
+            k = (t[2], int(t[3]))
+            if k in sess: sess[k][1] = ns
+            elif len(sess) < 16: sess[k] = [False, ns]
+        elif t[0] == 'st_complete' and t[1] == '0':
+            k = (t[2], int(t[3]))
+            if k in sess: sess[k][0] = bool(int(t[4]))
+        elif t[0] == 'st_remove' and t[1] == '0': sess.pop((t[2], int(t[3])), None)
+        elif t[0] == 'st_clear' and t[1] == '0': sess.clear()
+        elif t[0] == 'map_touch': touch = ns
+        elif t[0] == 'flow' and len(t) >= 4:
+            fr = V.unhex(t[3]); touch = ns
+            if len(fr) >= 32:
+                opc = fr[17]
+                if opc == 8: sess.clear()
+                elif opc == 0 and len(fr) >= 36:
+                    k = (fr[24:30].hex(), (fr[32] << 8) | fr[33]); n = (fr[34] << 8) | fr[35]
+                    listed = any(fr[36 + 6 * j: 42 + 6 * j] == own for j in range(min(n, (len(fr) - 36) // 6)))
+                    comp = None if n == 0 else listed
+                    if k in sess:
+                        sess[k][1] = ns
+                        if comp: sess[k][0] = True
+                        elif comp is None and sess[k][0] is False: sess[k][0] = None
+                    elif len(sess) < 16: sess[k] = [comp, ns]
+                    else: sess['?%d' % i] = [None, ns]
+        if t[0] in ('tick', 'flow'): sweep(ns)
         for h in hellos(b):
-            _, ctx, t = h.split(); t = int(t)
+            _, ctx, tt = h.split(); tt = int(tt)
             if not b.op.startswith(('tick', 'flow')):
                 fails.append((i, 'periodic Hello emitted by "%s", not by the tick' % b.op[:60]))
-            if ctx in last and t - last[ctx] < 1000:
-                fails.append((i, 'periodic Hellos %d ms apart (at %d and %d) on interface %s' % (t - last[ctx], last[ctx], t, ctx)))
-            last[ctx] = t
+            if ctx in last and tt - last[ctx] < 1000:
+                fails.append((i, 'periodic Hellos %d ms apart (at %d and %d) on interface %s' % (tt - last[ctx], last[ctx], tt, ctx)))
+            last[ctx] = tt
             if b.kv.get('empty') == '1' or b.kv.get('allc') == '1':
-                fails.append((i, 'periodic Hello at %d although the session table is %s' % (t, 'empty' if b.kv.get('empty') == '1' else 'all complete')))
+                fails.append((i, 'periodic Hello at %d although the session table is %s' % (tt, 'empty' if b.kv.get('empty') == '1' else 'all complete')))
+            elif ctx == '0' and name.startswith(('ghost', 'emitidle', 'round', 'wrap')) and not any(v[0] is not True for v in sess.values()):
+                fails.append((i, 'periodic Hello at %d ms although %s' % (tt, 'no session is left (reset, expired, or dropped after 30 s without a frame)' if not sess else 'every session is complete')))
     return fails
 def count(name, lines, ib, stats, meta):
     last = None
